@@ -7,7 +7,7 @@ line grammar (whitespace separated tokens):
   scn <ntop> cls{ntop} <nclasses> class{nclasses} <ncbs> code{ncbs}     -- resets the state
   class := <nsteps> step{nsteps}        step := (N|W|F|R) code        code := <nacts> act{nacts}
   act   := o | a | u | c<k> | l<k> | x<k>
-  tick <tid> | resume <tid> | ext <pid> <cb>      -- ext: `pid.call_soon(cb)` from code outside any task
+  tick <tid> | resume <tid> | kill <tid> | ext <pid> <cb>      -- ext: `pid.call_soon(cb)` from code outside any task
 output, one line per input line:
   obs=<owner>:<kind>:<cur|->:<stack bottom first, '.' separated>,...  ready=<tid,..> parked=<tid,..> loop=<cur|->
   `err:<name>` once the model state carries an error, `bad` for unparsable input or an ill-formed scenario
@@ -123,6 +123,10 @@ def handle (st : Option State) (line : String) : Option State × String :=
   | ["resume", t] =>
     match st, t.toNat? with
     | some σ, some t => let σ' := step σ (.resume t); (some σ', showState σ.log.length σ')
+    | _, _ => (st, "bad")
+  | ["kill", t] =>
+    match st, t.toNat? with
+    | some σ, some t => let σ' := step σ (.kill t); (some σ', showState σ.log.length σ')
     | _, _ => (st, "bad")
   | ["ext", p, cb] =>
     match st, p.toNat?, cb.toNat? with
